@@ -536,6 +536,25 @@ def long_decimal_literals():
     return out
 
 
+def negated_comparison_cases():
+    """`not` directly over every comparison operator (and over `and` / `or` of two), asked with values whose order is not total: NaN, infinities, sets (ordered by
+    inclusion) — `not (x < 5)` is not `x >= 5` for them"""
+    L = lambda t: lit_str(t, quote='"')
+    one = lambda t: ("ret", [(L(t), "1")])
+    nan = float("nan")
+    cases = []
+    for op in ("<", "<=", ">", ">=", "==", "!="):
+        for rhs, envs in ((("lit", lit_float("5.0")), [{"u": 1, "x": v} for v in (nan, float("inf"), float("-inf"), 5, 5.0, 4, 6, 4.999999999999999)]),
+                          (("lit", lit_int(5)), [{"u": 1, "x": v} for v in (nan, 5, 5.0, 4, 6)]),
+                          (("id", "y"), [{"u": 1, "x": a, "y": b} for a, b in ((nan, nan), (nan, 1), (1, nan), ({1}, {2}), ({1}, {1, 2}), ({1, 2}, {1}), ({1}, {1}), (frozenset({1}), {3}), (1, 2), (2, 1), (2, 2))])):
+            cmp_ = ("cmp", ("id", "x"), op, rhs)
+            for name, pred in (("not", ("not", cmp_)), ("not-not", ("not", ("not", cmp_))), ("not-and", ("not", ("and", cmp_, ("cmp", ("id", "u"), "==", ("lit", lit_int(1)))))),
+                               ("or-not", ("or", ("not", cmp_), ("cmp", ("id", "u"), "==", ("lit", lit_int(2)))))):
+                prog = Program("neg", None, ["u"], ("if", pred, one("T"), ("else", one("F"))), {"u": "any", "x": "any", "y": "any"})
+                cases.append({"prog": prog, "text": render(prog, None, "plain"), "envs": envs})
+    return cases
+
+
 def membership_cases(rng, n):
     """membership tests against literal tuples of 1..24 members (all scalar literals; with an identifier; with a nested tuple), asked
     with values of every kind a caller's record can hold — also unhashable ones (a list, a dict, a set, a composite id decoded from
